@@ -682,3 +682,35 @@ def unroll_const_loops(fnode, consts=None, limit=8):
     fn = G().visit(fn)
     ast.fix_missing_locations(fn)
     return fn
+
+
+def expand_quantifiers(fnode, module=None, limit=16):
+    """any(E for x in (a, b, ...)) -> E[x:=a] or E[x:=b] ...;  all(...) -> and.  The iterable may be a literal
+    tuple/list or a module-level name bound to one."""
+    fn = clone(fnode)
+
+    def elements(it):
+        if isinstance(it, (ast.Tuple, ast.List)):
+            return it.elts
+        if module is not None and isinstance(it, ast.Name):
+            node = module.const_nodes.get('', {}).get(it.id)
+            if isinstance(node, (ast.Tuple, ast.List)):
+                return node.elts
+        return None
+
+    class Q(ast.NodeTransformer):
+        def visit_Call(self, c):
+            self.generic_visit(c)
+            if isinstance(c.func, ast.Name) and c.func.id in ('any', 'all') and len(c.args) == 1 and not c.keywords \
+                    and isinstance(c.args[0], (ast.GeneratorExp, ast.ListComp)) and len(c.args[0].generators) == 1:
+                g = c.args[0].generators[0]
+                elts = elements(g.iter)
+                if elts is not None and 0 < len(elts) <= limit and isinstance(g.target, ast.Name) and not g.ifs and not g.is_async:
+                    vals = [_Rename({}, {g.target.id: e}).visit(clone(c.args[0].elt)) for e in elts]
+                    if len(vals) == 1:
+                        return vals[0]
+                    return ast.copy_location(ast.BoolOp(op=ast.Or() if c.func.id == 'any' else ast.And(), values=vals), c)
+            return c
+    fn = Q().visit(fn)
+    ast.fix_missing_locations(fn)
+    return fn
